@@ -145,4 +145,154 @@ theorem derive_other_eq (env : TW.Env) (img : List Nat) (tbl : Option Table) (ou
         have h0i : ¬ ((fOpcode img : Int) = 0) := by omega
         simp [TW.derive_session_event, deriveCode, hlen, hop, h1, h8, hne, h8i, h1i, h0i]
 
+/-- `loop_scan` as an unconditional equation (to be used with `rw`): the guard is what `loop_scan` assumes -/
+theorem loop_scan_guard (env : TW.Env) (n : Nat) (s : TW.derive_session_event.S) :
+    loopRange 0 n (TW.derive_session_event.loop1 env) s =
+      if s.brk = false ∧ s.our_mac.length = 6 ∧ 36 + n * 6 ≤ s.frame.length then
+        (if (stationScan s.frame 36 6 s.our_mac n 0).1 then { s with acking := true, brk := true } else s)
+      else loopRange 0 n (TW.derive_session_event.loop1 env) s := by
+  split
+  · rename_i h
+    have := loop_scan env n 0 s h.1 h.2.1 (by omega)
+    simpa using this
+  · rfl
+
+/-- what the oracle is assumed to hand back: the model's table holds 6-byte addresses and 16-bit sequence numbers -/
+def TableWf (tbl : Option Table) : Prop := ∀ t, tbl = some t → ∀ e ∈ t.entries, e.mac.length = 6 ∧ e.seq < 65536
+
+theorem derive_discover_short (env : TW.Env) (img : List Nat) (tbl : Option Table) (our : Mac)
+    (h32 : 32 ≤ img.length) (h0 : fOpcode img = X.opDiscover) (h36 : img.length < 36) :
+    (TW.derive_session_event env img img.length [] our).ret = deriveCode img tbl (some our) := by
+  have hlen : ¬ img.length < 32 := by omega
+  have hop : unle (rd img (0 + 17) 1) = fOpcode img := by
+    rw [Nat.zero_add, unle_rd1 img 17 (by omega)]; simp [fOpcode]
+  have h0' : fOpcode img = 0 := by simpa using h0
+  simp [TW.derive_session_event, deriveCode, hlen, hop, h0', h36]
+
+theorem loop_scan0 (env : TW.Env) (n : Nat) (s : TW.derive_session_event.S) (hb : s.brk = false) (hour : s.our_mac.length = 6)
+    (hfit : 36 + n * 6 ≤ s.frame.length) :
+    loopRange 0 n (TW.derive_session_event.loop1 env) s =
+      if (stationScan s.frame 36 6 s.our_mac n 0).1 then { s with acking := true, brk := true } else s := by
+  have := loop_scan env n 0 s hb hour (by omega)
+  simpa using this
+
+theorem existing_facts (tbl : Option Table) (mac : Mac) (gen : Nat) (e : Entry) (hwf : TableWf tbl)
+    (hex : existingOf tbl mac gen = some e) : e.mac = mac ∧ e.mac.length = 6 ∧ e.seq < 65536 := by
+  cases tbl with
+  | none => simp [existingOf] at hex
+  | some t =>
+    simp only [existingOf] at hex
+    have hp := List.find?_some hex
+    have hm := List.mem_of_find?_eq_some hex
+    have hw := hwf t rfl e hm
+    simp only [Entry.matches, Bool.and_eq_true, beq_iff_eq] at hp
+    exact ⟨hp.1.2, hw.1, hw.2⟩
+
+/-- what the C text reads of the entry the lookup returned -/
+theorem entry_reads (env : TW.Env) (img : List Nat) (e : Entry) (h24 : 30 ≤ img.length) (hm : e.mac = fRealSrc img) (h6 : e.mac.length = 6)
+    (hs : e.seq < 65536) :
+    unle (rd (entryBytes e) 8 2) = e.seq ∧ (TW.mac_equal env (entryBytes e) (List.drop 24 img)).ret = true := by
+  constructor
+  · have : rd (entryBytes e) 8 2 = le 2 e.seq := by
+      simp [entryBytes, rd, List.drop_append, h6, le_length, List.take_append]
+    rw [this, unle_le 2 e.seq (by omega)]
+  · have hd : 6 ≤ (List.drop 24 img).length := by rw [List.length_drop]; omega
+    rw [mac_equal_eq env (entryBytes e) (List.drop 24 img) (by simp [entryBytes, h6]) hd]
+    have h1 : List.take 6 (entryBytes e) = e.mac := by simp [entryBytes, List.take_append, h6]
+    have h2 : List.take 6 (List.drop 24 img) = fRealSrc img := by simp [fRealSrc, slice]
+    rw [h1, h2, hm]; simp
+
+/-- a Discover that announces no stations acknowledges everybody -/
+theorem derive_discover_zero (env : TW.Env) (img : List Nat) (tbl : Option Table) (our : Mac)
+    (hb : isBytes img) (hl : img.length < 18446744073709551616) (hour : our.length = 6)
+    (horacle : env.session_table_find = findOracle tbl) (hwf : TableWf tbl)
+    (h0 : fOpcode img = X.opDiscover) (h36 : 36 ≤ img.length) (hz : unbe (slice img 34 2) = 0) :
+    (TW.derive_session_event env img img.length [] our).ret = deriveCode img tbl (some our) := by
+  have hlen : ¬ img.length < 32 := by omega
+  have hlen36 : ¬ img.length < 36 := by omega
+  have hop : unle (rd img (0 + 17) 1) = fOpcode img := by
+    rw [Nat.zero_add, unle_rd1 img 17 (by omega)]; simp [fOpcode]
+  have h0' : fOpcode img = 0 := by simpa using h0
+  have hgen : (TW.lltd_ntohs env (unle (rd img 32 2))).ret = fDiscGen img := by
+    rw [ntohs_rd env img 32 hb (by omega)]; simp [fDiscGen]
+  have hxid : (TW.lltd_ntohs env (unle (rd img 30 2))).ret = fSeq img := by
+    rw [ntohs_rd env img 30 hb (by omega)]; simp [fSeq]
+  have hcnt : (TW.lltd_ntohs env (unle (rd img 34 2))).ret = 0 := by rw [ntohs_rd env img 34 hb (by omega)]; exact hz
+  have hsrc : List.take 6 (List.drop 24 img) = fRealSrc img := by simp [fRealSrc, slice]
+  cases hex : existingOf tbl (fRealSrc img) (fDiscGen img) with
+  | none =>
+    simp [TW.derive_session_event, deriveCode, discoverEvent, ackScan, hlen, hlen36, hop, h0', hgen, hxid, hcnt, hz, hsrc, horacle, findOracle, hex]
+  | some e =>
+    obtain ⟨hm, h6, hs⟩ := existing_facts tbl _ _ e hwf hex
+    obtain ⟨hr1, hr2⟩ := entry_reads env img e (by omega) hm h6 hs
+    by_cases hq : e.seq = fSeq img
+    · simp [TW.derive_session_event, deriveCode, discoverEvent, ackScan, hlen, hlen36, hop, h0', hgen, hxid, hcnt, hz, hsrc, horacle, findOracle, hex,
+        hr1, hr2, hq, int_bne]
+    · simp [TW.derive_session_event, deriveCode, discoverEvent, ackScan, hlen, hlen36, hop, h0', hgen, hxid, hcnt, hz, hsrc, horacle, findOracle, hex,
+        hr1, hr2, hq, int_bne]
+
+/-- a Discover with a non-empty station list: the list is scanned, as far as the frame reaches -/
+theorem derive_discover_scan (env : TW.Env) (img : List Nat) (tbl : Option Table) (our : Mac)
+    (hb : isBytes img) (hl : img.length < 18446744073709551616) (hour : our.length = 6)
+    (horacle : env.session_table_find = findOracle tbl) (hwf : TableWf tbl)
+    (h0 : fOpcode img = X.opDiscover) (h36 : 36 ≤ img.length) (hz : unbe (slice img 34 2) ≠ 0) :
+    (TW.derive_session_event env img img.length [] our).ret = deriveCode img tbl (some our) := by
+  have hlen : ¬ img.length < 32 := by omega
+  have hlen36 : ¬ img.length < 36 := by omega
+  have hop : unle (rd img (0 + 17) 1) = fOpcode img := by
+    rw [Nat.zero_add, unle_rd1 img 17 (by omega)]; simp [fOpcode]
+  have h0' : fOpcode img = 0 := by simpa using h0
+  have hgen : (TW.lltd_ntohs env (unle (rd img 32 2))).ret = fDiscGen img := by
+    rw [ntohs_rd env img 32 hb (by omega)]; simp [fDiscGen]
+  have hxid : (TW.lltd_ntohs env (unle (rd img 30 2))).ret = fSeq img := by
+    rw [ntohs_rd env img 30 hb (by omega)]; simp [fSeq]
+  have hcnt : (TW.lltd_ntohs env (unle (rd img 34 2))).ret = unbe (slice img 34 2) := ntohs_rd env img 34 hb (by omega)
+  have hdlt : unbe (slice img 34 2) < 65536 := unbe_slice_two_lt img 34 hb
+  have hmax : (img.length + 18446744073709551580) % 18446744073709551616 = img.length - 36 := by omega
+  have hsrc : List.take 6 (List.drop 24 img) = fRealSrc img := by simp [fRealSrc, slice]
+  have hzi : ¬ ((unbe (slice img 34 2) : Int) = 0) := by omega
+  by_cases hgt : unbe (slice img 34 2) > (img.length - 36) / 6
+  · have hmod : (img.length - 36) / 6 % 65536 = (img.length - 36) / 6 := by omega
+    have hfit : 36 + (img.length - 36) / 6 * 6 ≤ img.length := by omega
+    cases hex : existingOf tbl (fRealSrc img) (fDiscGen img) with
+    | none =>
+      by_cases hsc : (stationScan img 36 6 our ((img.length - 36) / 6) 0).1 = true
+      · simp [TW.derive_session_event, deriveCode, discoverEvent, ackScan, stationCount, hlen, hlen36, hop, h0', hgen, hxid, hcnt, hz, hzi, hsrc, horacle,
+          findOracle, hex, hmax, hgt, hmod, hfit, hour, loop_scan0, hsc]
+      · simp [TW.derive_session_event, deriveCode, discoverEvent, ackScan, stationCount, hlen, hlen36, hop, h0', hgen, hxid, hcnt, hz, hzi, hsrc, horacle,
+          findOracle, hex, hmax, hgt, hmod, hfit, hour, loop_scan0, hsc]
+    | some e =>
+      obtain ⟨hm, h6, hs⟩ := existing_facts tbl _ _ e hwf hex
+      obtain ⟨hr1, hr2⟩ := entry_reads env img e (by omega) hm h6 hs
+      by_cases hsc : (stationScan img 36 6 our ((img.length - 36) / 6) 0).1 = true <;> by_cases hq : e.seq = fSeq img
+      all_goals simp [TW.derive_session_event, deriveCode, discoverEvent, ackScan, stationCount, hlen, hlen36, hop, h0', hgen, hxid, hcnt, hz, hzi, hsrc, horacle,
+          findOracle, hex, hmax, hgt, hmod, hfit, hour, loop_scan0, hsc, hr1, hr2, hq, int_bne]
+  · have hfit : 36 + unbe (slice img 34 2) * 6 ≤ img.length := by omega
+    have hmod : True := trivial
+    cases hex : existingOf tbl (fRealSrc img) (fDiscGen img) with
+    | none =>
+      by_cases hsc : (stationScan img 36 6 our (unbe (slice img 34 2)) 0).1 = true
+      all_goals simp [TW.derive_session_event, deriveCode, discoverEvent, ackScan, stationCount, hlen, hlen36, hop, h0', hgen, hxid, hcnt, hz, hzi, hsrc, horacle,
+          findOracle, hex, hmax, hgt, hmod, hfit, hour, loop_scan0, hsc]
+    | some e =>
+      obtain ⟨hm, h6, hs⟩ := existing_facts tbl _ _ e hwf hex
+      obtain ⟨hr1, hr2⟩ := entry_reads env img e (by omega) hm h6 hs
+      by_cases hsc : (stationScan img 36 6 our (unbe (slice img 34 2)) 0).1 = true <;> by_cases hq : e.seq = fSeq img
+      all_goals simp [TW.derive_session_event, deriveCode, discoverEvent, ackScan, stationCount, hlen, hlen36, hop, h0', hgen, hxid, hcnt, hz, hzi, hsrc, horacle,
+          findOracle, hex, hmax, hgt, hmod, hfit, hour, loop_scan0, hsc, hr1, hr2, hq, int_bne]
+
+/-- **`derive_session_event` as translated from the C text returns the model's event code** - every frame image of bytes (its length is
+    what the callee is told), every session table with 6-byte addresses and 16-bit sequence numbers behind the lookup, every own address -/
+theorem derive_session_event_eq (env : TW.Env) (img : List Nat) (tbl : Option Table) (our : Mac)
+    (hb : isBytes img) (hl : img.length < 18446744073709551616) (hour : our.length = 6)
+    (horacle : env.session_table_find = findOracle tbl) (hwf : TableWf tbl) :
+    (TW.derive_session_event env img img.length [] our).ret = deriveCode img tbl (some our) := by
+  by_cases hd : 32 ≤ img.length ∧ fOpcode img = X.opDiscover
+  · by_cases h36 : img.length < 36
+    · exact derive_discover_short env img tbl our hd.1 hd.2 h36
+    · by_cases hz : unbe (slice img 34 2) = 0
+      · exact derive_discover_zero env img tbl our hb hl hour horacle hwf hd.2 (by omega) hz
+      · exact derive_discover_scan env img tbl our hb hl hour horacle hwf hd.2 (by omega) hz
+  · exact derive_other_eq env img tbl our hd
+
 end LLTD.TEvEq
